@@ -300,7 +300,12 @@ macro_rules! shared_impl {
             internal.recv_count = 0;
             internal.send_count = 0;
             internal.terminate_signals();
-            internal.queue.clear();
+            // Destroy the buffered objects after releasing the lock: the
+            // destructor of an object may come back to this channel, e.g. by
+            // dropping a handle of the channel that travels inside of it
+            let queue = core::mem::take(&mut internal.queue);
+            drop(internal);
+            drop(queue);
             Ok(())
         }
         /// Returns whether the channel is closed on both side of send and
